@@ -6,6 +6,8 @@
 //!                  executes commanded steps, acknowledging each:
 //!                  `o <n>` / `e <n>` write n bytes to stdout / stderr, `x` write one 0xFF
 //!                  byte to stdout, `co` / `ce` close stdout / stderr, `q <code>` exit.
+//! `vchild emitn <tag> <n_out> <n_err> <code>` — n bytes of the cyclic pattern `tag` on stdout,
+//!                  its upper-case form on stderr, then exit <code> (C16 capture lifetimes).
 //! `vchild exit <code>` / `vchild echo <text>` — trivial helpers.
 
 use std::io::{BufRead, BufReader, Read, Write};
@@ -50,6 +52,18 @@ fn main() {
         "exit" => {
             let code = args.get(2).and_then(|a| a.to_string_lossy().parse().ok()).unwrap_or(0);
             std::process::exit(code);
+        }
+        // emitn <tag> <n_out> <n_err> <code>: n bytes of the cyclic pattern tag,tag,... on each stream
+        "emitn" => {
+            let tag = args.get(2).map(|a| a.as_bytes().to_vec()).unwrap_or_default();
+            let num = |k: usize| -> usize { args.get(k).and_then(|a| a.to_string_lossy().parse().ok()).unwrap_or(0) };
+            let pat = |n: usize| -> Vec<u8> { (0..n).map(|i| tag[i % tag.len().max(1)]).collect() };
+            if !tag.is_empty() {
+                let _ = std::io::stdout().write_all(&pat(num(3)));
+                let _ = std::io::stdout().flush();
+                let _ = std::io::stderr().write_all(&pat(num(4)).iter().map(|b| b.to_ascii_uppercase()).collect::<Vec<u8>>());
+            }
+            std::process::exit(num(5) as i32);
         }
         "echo" => {
             if let Some(a) = args.get(2) {
